@@ -60,8 +60,8 @@ def rule_T7_keyblock(tree: Tree) -> RuleResult:
         r.instances += 1
         cfg = cfg_of(f.node)
         z = [n for n in cfg.nodes if n.kind == "stmt" and isinstance(n.ast, ast.Assign) and dotted(n.ast.targets[0]) == "mac_length" and try_fold(n.ast.value) == 0]
-        ok = len(z) == 1 and fact_holds(cfg.facts_at(z[0].id), "use_aead", True) and all(cfg.dominates(z[0].id, cfg.node_of(d)) or True for _ in [0])
-        r.ob(ok, Finding("T7k", f"{KD}:{fn}:aead-no-mac", f"{fn}: AEAD suites have no MAC keys (mac_length = 0 under use_aead)", m.line(f.node)))
+        ok = len(z) == 1 and [(src(e), t) for e, t in cfg.facts_at(z[0].id)] == [("use_aead", True)]
+        r.ob(ok, Finding("T7k", f"{KD}:{fn}:aead-no-mac", f"{fn}: AEAD suites have no MAC keys: `mac_length = 0` must depend on use_aead alone (for every AEAD cipher, ChaCha20-Poly1305 included)", m.line(f.node)))
     return r
 
 
@@ -97,9 +97,21 @@ def _kw_or_pos(call: ast.Call, i: int, name: str):
     return None
 
 
-def rule_T6(tree: Tree) -> RuleResult:
+def rule_T6_quic(tree: Tree) -> RuleResult:
+    return rule_T6(tree, parts=("quic",))
+
+
+def rule_T6(tree: Tree, parts=("tls", "quic")) -> RuleResult:
     r = RuleResult("T6", "KDF call sites: target role ↔ key-log label ↔ secret; label bytes, declared lengths and output lengths per RFC 8446 §7.3 / RFC 9001 §5; PRF labels and seed order")
     kd = tree.module(KD)
+    if "tls" in parts:
+        _t6_tls(tree, r, kd)
+    if "quic" in parts:
+        _t6_quic(tree, r)
+    return r
+
+
+def _t6_tls(tree: Tree, r: RuleResult, kd) -> None:
     # ---- TLS 1.3
     f = tree.func(KD, "dev_tls_13_keys")
     cfg = cfg_of(f.node)
@@ -222,6 +234,9 @@ def rule_T6(tree: Tree) -> RuleResult:
     takes_hash = any("mac" in p or "hash" in p for p in g.params)
     r.ob(takes_hash or hs != {"hashes.SHA256()"}, Finding("T6", f"{KD}:gen_master_secret_tls_12:hash-fixed",
                                                           "gen_master_secret_tls_12 hard-codes HMAC-SHA256; for `RSA` key-log lines with a SHA-384 suite the master secret must be derived with the SHA-384 PRF", kd.line(g.node)))
+
+
+def _t6_quic(tree: Tree, r: RuleResult) -> None:
     # ---- QUIC
     qk = tree.module(QK)
     mi = tree.func(QK, "make_info")
@@ -359,7 +374,7 @@ def rule_T6(tree: Tree) -> RuleResult:
     kinfo = [(try_fold(c.args[0]), src(c.args[1])) for c in body_walk(ku.node) if isinstance(c, ast.Call) and dotted(c.func) == "make_info"]
     ok = ok and kinfo[:3] == [(b"quic key", "key_length"), (b"quic iv", "12"), (b"quic ku", "hash_fun.digest_size")]
     r.ob(ok, Finding("T6", f"{QK}:key_update:schedule", "key update (RFC 9001 §6.1): secret_{n+1} = Expand-Label(secret_n, 'quic ku', Hash.length); key and IV (not hp) re-derived from secret_{n+1} of the same direction", qk.line(ku.node)))
-    return r
+
 
 
 # ------------------------------------------------------------------------------------------ T5 (TLS)
